@@ -34,7 +34,7 @@ COMPONENTS = {"real": ["EoN.simulation._ListDict_", "EoN.Gillespie_SIR", "EoN.Gi
 def plan(tier):
     if tier == "quick":
         return [("machine", 320), ("sample", 160), ("sir_walk", 300), ("sis_walk", 100), ("simple_walk", 250), ("complex_walk", 250)]
-    return [("machine", 8000), ("sample", 3000), ("sir_walk", 15000), ("sis_walk", 6000), ("simple_walk", 12000), ("complex_walk", 12000)]
+    return [("machine", 3200), ("sample", 1200), ("sir_walk", 3600), ("sis_walk", 1200), ("simple_walk", 3000), ("complex_walk", 3000)]
 
 
 def _heavy_prefer(ad):
